@@ -255,20 +255,20 @@ Definition copy_create {B L : Type} (bstep : B -> op -> B * res) (lstep : L -> o
 
 Lemma copy_file_unfold {B L : Type} (bstep : B -> op -> B * res) (lstep : L -> op -> L * res) sb sl name bh :
   copy_file bstep lstep sb sl name bh =
-  let '(sl0, ex) := l_exists lstep sl (path_dir name) in
+  let '(sl0, ex) := l_exists lstep sl (copy_dir name) in
   match ex with
   | inr e => (sb, sl0, Some e)
   | inl true => copy_create bstep lstep sb sl0 name bh
   | inl false =>
-    match lstep sl0 (MkdirAll (path_dir name) 511) with
+    match lstep sl0 (MkdirAll (copy_dir name) 511) with
     | (s, ROk) => copy_create bstep lstep sb s name bh
     | (s, r) => (sb, s, Some (match res_err r with Some e => e | None => E KOther end))
     end
   end.
 Proof.
   unfold copy_file, copy_create, copy_tail.
-  destruct (l_exists lstep sl (path_dir name)) as [sl0 [[|]|e]]; try reflexivity.
-  destruct (lstep sl0 (MkdirAll (path_dir name) 511)) as [s r].
+  destruct (l_exists lstep sl (copy_dir name)) as [sl0 [[|]|e]]; try reflexivity.
+  destruct (lstep sl0 (MkdirAll (copy_dir name) 511)) as [s r].
   destruct r as [| | |?| | |? [?|]|? [?|]|? [?|]|? [?|]|? [?|]|]; reflexivity.
 Qed.
 
@@ -428,6 +428,13 @@ Qed.
 End TailBase.
 
 (* ---------------------------------------------------------------- copyFile, from the front *)
+(* for a name in normal form both spellings of the parent directory coincide *)
+Lemma copy_dir_normal name : normalize_path name = name -> copy_dir name = path_dir name.
+Proof.
+  intros Hn. unfold copy_dir. destruct (Z.eqb copyfile_cleans_name 1); [|reflexivity].
+  assert (Hc : clean name = name) by (rewrite <- Hn; apply clean_normalize). now rewrite Hc.
+Qed.
+
 Definition name_acyclic (name : str) : Prop :=
   let pk := normalize_path (path_dir name) in ~ In name (pk :: anc_keys (S (length pk)) pk).
 
@@ -527,7 +534,7 @@ Lemma copy_file_layer pl sb sl n0 : amo_from pl n0 ->
     reading sb' fb bh nb ab /\ mdata sb' = mdata sb /\ mheap sb' = mheap sb /\ layer_sane sl' name /\ (n0 <= n')%nat /\
     (r <> None -> fault_used pl n0 n') /\ outcome sl sl' r.
 Proof.
-  intros Hamo Hr Hs. rewrite copy_file_unfold. unfold l_exists.
+  intros Hamo Hr Hs. rewrite copy_file_unfold, (copy_dir_normal name Hn). unfold l_exists.
   destruct (faulty_plain m_step pl sl n0 (Stat (path_dir name)) eq_refl) as [H|(e & He & H)]; rewrite H.
   - (* Stat performed *)
     destruct Hs as [[P Hent]|[Lp Ln]].
@@ -581,7 +588,7 @@ Lemma copy_file_base pl sb nB sl :
     reading sb' fb bh nb ab /\ mdata sb' = mdata sb /\ mheap sb' = mheap sb /\ layer_sane sl' name /\
     outcome name nb sl sl' r.
 Proof.
-  intros Hr Hs. rewrite copy_file_unfold. unfold l_exists.
+  intros Hr Hs. rewrite copy_file_unfold, (copy_dir_normal name Hn). unfold l_exists.
   destruct Hs as [[P Hent]|[Lp Ln]].
   - destruct P as (p & pn & Lpk & Gp & Ap & Bp).
     rewrite (stat_found sl (path_dir name) p pn Lpk Gp).
